@@ -23,6 +23,10 @@
  */
 #include "vh.h"
 
+#include <ctype.h>
+#include <openssl/bn.h>
+#include <openssl/err.h>
+
 #include "crypto_dh.h"
 #include "crypto_entropy.h"
 
@@ -125,10 +129,31 @@ put_or_dash(int ok, const uint8_t * b, size_t n)
 		putchar('-');
 }
 
+/* An unrelated OpenSSL operation fails and leaves entries on the error queue. */
+static void
+leave_stale_errors(void)
+{
+	BN_CTX * ctx = BN_CTX_new();
+	BIGNUM * a = BN_new(), * n = BN_new(), * r = BN_new();
+
+	if (ctx == NULL || a == NULL || n == NULL || r == NULL)
+		vh_die("BN allocation");
+	BN_set_word(a, 6);
+	BN_set_word(n, 9);
+	if (BN_mod_inverse(r, a, n, ctx) != NULL)
+		vh_die("6 has an inverse modulo 9?");
+	if (ERR_peek_error() == 0)
+		vh_die("the failed BN_mod_inverse left no error entry");
+	BN_free(a); BN_free(n); BN_free(r);
+	BN_CTX_free(ctx);
+}
+
 int
 main(void)
 {
 	struct vh_line L = {0};
+	int stale;
+	char opc;
 
 	vh_stdout_linebuf();
 	while (vh_readline(&L, stdin)) {
@@ -137,7 +162,17 @@ main(void)
 		if (L.ntok == 0)
 			continue;
 		op = vh_tok(&L, 0);
-		if (op[0] == 'G') {
+		/*
+		 * A lower-case operation letter: the same operation, but entered
+		 * with stale entries on OpenSSL's per-thread error queue, as left
+		 * behind by an earlier, unrelated, already handled failure (here:
+		 * a modular inverse which does not exist).
+		 */
+		stale = islower((unsigned char)op[0]) ? 1 : 0;
+		opc = (char)toupper((unsigned char)op[0]);
+		if (stale)
+			leave_stale_errors();
+		if (opc == 'G') {
 			void * f1, * f2;
 			uint8_t * priv = tok_exact(&L, 1, CRYPTO_DH_PRIVLEN, &f1);
 			uint8_t * pub = outbuf(CRYPTO_DH_PUBLEN, &f2);
@@ -149,7 +184,7 @@ main(void)
 			put_or_dash(rc == 0, pub, CRYPTO_DH_PUBLEN);
 			printf(" %zu\n", Q.calls);
 			free(f1); free(f2);
-		} else if (op[0] == 'K') {
+		} else if (opc == 'K') {
 			void * f1, * f2, * f3;
 			uint8_t * pub = tok_exact(&L, 1, CRYPTO_DH_PUBLEN, &f1);
 			uint8_t * priv = tok_exact(&L, 2, CRYPTO_DH_PRIVLEN, &f2);
@@ -162,13 +197,13 @@ main(void)
 			put_or_dash(rc == 0, key, CRYPTO_DH_KEYLEN);
 			printf(" %zu\n", Q.calls);
 			free(f1); free(f2); free(f3);
-		} else if (op[0] == 'S') {
+		} else if (opc == 'S') {
 			void * f1;
 			uint8_t * pub = tok_exact(&L, 1, CRYPTO_DH_PUBLEN, &f1);
 
 			printf("R %d\n", crypto_dh_sanitycheck(pub));
 			free(f1);
-		} else if (op[0] == 'D') {
+		} else if (opc == 'D') {
 			void * f1, * f2;
 			uint8_t * pub = outbuf(CRYPTO_DH_PUBLEN, &f1);
 			uint8_t * priv = outbuf(CRYPTO_DH_PRIVLEN, &f2);
@@ -181,7 +216,7 @@ main(void)
 			put_or_dash(rc == 0, priv, CRYPTO_DH_PRIVLEN);
 			printf(" %zu\n", Q.calls);
 			free(f1); free(f2);
-		} else if (op[0] == 'A') {
+		} else if (opc == 'A') {
 			void * f[6];
 			uint8_t * pubA = outbuf(CRYPTO_DH_PUBLEN, &f[0]);
 			uint8_t * privA = outbuf(CRYPTO_DH_PRIVLEN, &f[1]);
@@ -213,6 +248,8 @@ main(void)
 				free(f[i]);
 		} else
 			vh_die("bad op %s", op);
+		if (stale)
+			ERR_clear_error();
 	}
 	return (0);
 }
